@@ -265,9 +265,9 @@ func main() {
 	for _, pi := range infos {
 		indexTypes(pi)
 	}
-	// Metrics.geoipdb (written by LoadGeoipDatabases on SIGHUP, read by UpdateCountryStats): tracked once the
-	// repo has the lock in LoadGeoipDatabases (proposed-fixes/C20-geoip-reload-lock.diff); lib/checks/c20.py sets the variable
-	if os.Getenv("VERIF_C20_GEOIP_RELOAD") == "1" {
+	// Metrics.geoipdb (written by LoadGeoipDatabases on SIGHUP, read by UpdateCountryStats): tracked since /repo 8c17ea8
+	// takes the lock in LoadGeoipDatabases; lib/checks/c20.py passes VERIF_C20_GEOIP_RELOAD (default 1), 0 leaves it out
+	if os.Getenv("VERIF_C20_GEOIP_RELOAD") != "0" {
 		trackedList = append(trackedList, struct{ pkg, typ, name string }{"/broker", "Metrics", "geoipdb"})
 	}
 	for _, tr := range trackedList {
